@@ -638,8 +638,8 @@ func TestC09(t *testing.T) {
 		"(width 2..8,16,174,1024; chunk 1..256Ki; raw/dag-pb leaves; CIDv0/v1/blake2b; 0..100 KB quick, ..2 MB thorough), from DagModifier " +
 		"histories, and hand-built trees with wrong recorded sizes; non-trivial = at least 4 calls incl. a seek and a read on a DAG with >= 3 leaves; " +
 		"distinct by (config, calls)")
-	cs := vh.NewCases(e, "From V Require Import model.M_C10 model.M_C09.\nOpen Scope Z_scope.", "case", "check_case", 100)
-	n := e.Pick(700, 12000)
+	cs := vh.NewCases(e, "From V Require Import model.M_C10 model.M_C09.\nOpen Scope Z_scope.", "case", "check_case", 50)
+	n := e.Pick(500, 12000)
 	type job struct {
 		c   *config
 		ops []op
